@@ -27,9 +27,13 @@ def draw_config(rng, g, tier):
     kind = rng.choice(["exe", "exe", "dynexe", "dynexe", "shared", "pie"])
     threads = rng.choice([2, 2, 3, 4, 8])
     fpg = rng.choice([None, 1, 1, 2, 3, 8])
+    # With the default grouping knobs (at least 150 groups) every file of these small links is a
+    # group of its own; real links have many files per group. Lower the group count in more than half
+    # of the runs so that groups hold several files (up to files-per-group), including groups that
+    # start with a never-loaded archive member.
     experiments = None
-    if rng.random() < 0.3:
-        experiments = f"_,_,{rng.choice([1, 2, 4])},{rng.choice([1, 4, 16])}"
+    if rng.random() < 0.55:
+        experiments = f"_,_,{rng.choice([1, 2, 4])},{rng.choice([1, 2, 4, 16])}"
     # Options that change generated sections (C23's quantifier).
     opts = []
     if kind == "shared" and rng.random() < 0.4:
